@@ -501,6 +501,7 @@ func (w *World) genNames(repo string) {
 		names string
 	}
 	byFile := map[string][]edit{}
+	loopEdits := map[string][]edit{}
 	for key, c := range w.Contracts {
 		decl, pkg, obj := w.FuncDecls[key], w.FuncPkg[key], w.FuncObj[key]
 		if c.Trusted || decl == nil || pkg == nil || obj == nil {
@@ -513,6 +514,23 @@ func (w *World) genNames(repo string) {
 		ln, _ := strconv.Atoi(c.Src[i+1:])
 		file := filepath.Join(filepath.Dir(w.Fset.Position(decl.Pos()).Filename), filepath.Base(c.Src[:i]))
 		byFile[file] = append(byFile[file], edit{ln, strings.Join(declaredNames(decl, pkg.TypesInfo, obj), " ")})
+		// loop headers: run the symbolic executor once to learn which loop each loop contract applies to
+		if len(c.Loops) > 0 && c.Opts["noverify"] == "" {
+			for _, lc := range c.Loops {
+				lc.Sig = "" // match by ordinal while recording
+			}
+			fc := w.verifyFunc(key)
+			for ord, lc := range c.Loops {
+				j := strings.LastIndex(lc.Src, ":")
+				if j < 0 {
+					continue
+				}
+				lln, _ := strconv.Atoi(lc.Src[j+1:])
+				if sig, ok := fc.loopSigs[ord]; ok && sig != "" {
+					loopEdits[file] = append(loopEdits[file], edit{lln, fmt.Sprintf("//@   loop %d @ %s", ord, sig)})
+				}
+			}
+		}
 	}
 	for file, eds := range byFile {
 		raw, err := os.ReadFile(file)
@@ -521,6 +539,11 @@ func (w *World) genNames(repo string) {
 			continue
 		}
 		lines := strings.Split(string(raw), "\n")
+		for _, e := range loopEdits[file] {
+			if e.line-1 < len(lines) && strings.HasPrefix(strings.TrimSpace(strings.TrimPrefix(lines[e.line-1], "//@")), "loop ") {
+				lines[e.line-1] = e.names
+			}
+		}
 		at := map[int]string{}
 		for _, e := range eds {
 			at[e.line] = e.names
